@@ -390,9 +390,62 @@ def _setattr(t, name, value):
     return t
 
 
+def edge_tables(F, mon):
+    """zero-column left operands of >>, rows holding bytes-like cells, column requests that name an ATTRIBUTE"""
+    ex = 0
+    for mk0, label0 in ((lambda: Table(), "Table()"), (lambda: Table({}), "Table({})"), (lambda: Table({"a": [1, 2]})[("a",)] >> {"b": [3, 4]}, "one column >> dict")):
+        for label, add, expcols in (("t >> {a: [1,2,3], b: [4,5,6]}", lambda t: t >> {"a": [1, 2, 3], "b": [4, 5, 6]}, [[1, 2, 3], [4, 5, 6]]),
+                                    ("t >> Vector", lambda t: t >> Vector([1, 2, 3], name="a"), [[1, 2, 3]]),
+                                    ("t >> {a: [7]}", lambda t: t >> {"a": [7]}, [[7]])):
+            if label0 == "one column >> dict":
+                continue
+            st, r, e = attempt(lambda: add(mk0()))
+            ex += 1
+            case = {"left": label0, "operation": label}
+            if st != "ok" or not isinstance(r, Table):
+                continue            # rejecting is allowed
+            got = [list(c) for c in r.cols()]
+            n = len(expcols[0])
+            if got != expcols or len(r) != n or r.shape != (n, len(expcols)) or [list(x) for x in r] != [[c[i] for c in expcols] for i in range(n)]:
+                F.add("rectangular", case, {"cols": got, "len": len(r), "shape": r.shape, "rows": [list(x) for x in r]},
+                      {"cols": expcols, "len": n, "shape": (n, len(expcols))})
+            mon.see(r, label)
+        st, r, e = attempt(lambda: mk0() >> {"a": [1, 2, 3], "b": ["x"]})
+        ex += 1
+        if st == "ok" and isinstance(r, Table) and len({len(c) for c in r.cols()}) > 1:
+            F.add("ragged_outcome", {"left": label0, "operation": "t >> {a: 3 cells, b: 1 cell}"}, [len(c) for c in r.cols()], "rejected")
+    # rows whose cells are bytes-like or otherwise iterable: ONE cell each
+    cells = {"bytes": (b"p", b"q", [b"x", b"xyz", b""]), "bytearray": (bytearray(b"p"), bytearray(b"q"), [bytearray(b"zz"), bytearray()]),
+             "str": ("p", "q", ["x", "xyz", ""])}       # (a list / tuple cell inside a row is spread by design: << appends sequences)
+    for kind, (c0, c1, news) in cells.items():
+        for new in news:
+            for form, mkrow in (("tuple", lambda: (3, new)), ("list", lambda: [3, new])):
+                t = Table({"n": [1, 2], "b": [c0, c1]})
+                st, r, e = attempt(lambda: t << mkrow())
+                ex += 1
+                case = {"cell kind": kind, "appended row": repr(mkrow())}
+                if st != "ok":
+                    continue
+                exp = [[1, 2, 3], [c0, c1, new]]
+                if not isinstance(r, Table) or [list(c) for c in r.cols()] != exp:
+                    F.add("append_rows", case, [list(c) for c in r.cols()] if isinstance(r, Table) else repr(r)[:80], exp)
+                if [list(c) for c in t.cols()] != [[1, 2], [c0, c1]]:
+                    F.add("operands_unchanged", case, "t changed by <<", "unchanged")
+    # a column request that names no column raises - also when the name is an attribute of Table / Vector
+    t = Table({"x": [1, 2], "y": ["a", "b"]})
+    for nm in sorted(set(dir(Table)) | {"_underlying", "_length", "_name", "__len__"}):
+        for label, get in (("t[name]", lambda: t[nm]), ("t[(name, 'x')]", lambda: t[(nm, "x")]), ("t[0:1][name]", lambda: t[0:1][nm])):       # (row['x'] is attribute access on the Row by design: not a column request)
+            st, r, e = attempt(get)
+            ex += 1
+            if st == "ok":
+                F.add("missing_column", {"requested": nm, "how": label}, repr(r)[:60], "an error (there is no such column)")
+    return ex
+
+
 def struct(out_path):
     F, mon, ex = Fails(), Monitor(), 0
     ex += tuple_donors(F)
+    ex += edge_tables(F, mon)
     cells_dom = [None, 0, 1]
     for ncols in (1, 2, 3):
         for nrows in (0, 1, 2):
@@ -638,6 +691,36 @@ def methods(out_path):
                             F.add("broadcast", case, repr(got)[:120], repr(exp)[:120])
                         if list(v) != before:
                             F.add("operands_unchanged", case, "the vector changed", "unchanged")
+    # elements narrower than the vector's kind (an int inside a float vector, a date inside a datetime vector): the method is
+    # applied to THE ELEMENT, whatever the dtype says
+    from datetime import datetime as _dtm
+    mixed = {"float holding ints": ([0.5, 1, None, 2.5, 4], float), "int holding bools": ([3, True, None, False, 8], int),
+             "datetime holding dates": ([_dtm(2020, 1, 1, 5), date(2020, 1, 2), None, _dtm(2021, 3, 4, 5, 6)], _dtm),
+             "complex holding ints": ([1 + 2j, 3, None, 2.5], complex)}
+    for mname, (vals, pyt) in mixed.items():
+        for name in sorted(dir(pyt)):
+            if name.startswith("_") or name in vec_api or name in ("today", "now", "utcnow"):
+                continue
+            try:
+                exp = [None if x is None else (getattr(x, name)() if callable(getattr(x, name)) else getattr(x, name)) for x in vals]
+            except Exception:      # noqa: BLE001
+                continue           # needs arguments, or some element's class does not have it
+            v = Vector(list(vals))
+            st, r, e = attempt(lambda: getattr(v, name)() if callable(getattr(pyt, name)) else getattr(v, name))
+            ex += 1
+            case = {"type": mname, "attr": name}
+            if st != "ok":
+                F.add("broadcast", case, "raised " + type(e).__name__ + ": " + str(e)[:60], repr(exp)[:100])
+            elif not isinstance(r, Vector) or not all(A.same_value(g, x) or g == x for g, x in zip(list(r), exp)) or len(r) != len(exp):
+                F.add("broadcast", case, repr(list(r) if isinstance(r, Vector) else r)[:100], repr(exp)[:100])
+    # dates + days of another length is an error like any other length mismatch - nothing is truncated
+    for nd, nn in ((3, 2), (2, 3), (1, 0), (0, 1), (3, 1)):
+        dv = Vector([date(2020, 1, 1 + i) for i in range(nd)]) if nd else Vector([], dtype=date)
+        for label, other in (("int Vector", Vector(list(range(nn))) if nn else Vector([], dtype=int)), ("list", list(range(nn)))):
+            st, r, e = attempt(lambda: dv + other)
+            ex += 1
+            if st == "ok" and isinstance(r, Vector) and nd != nn and nd and nn:
+                F.add("length_mismatch", {"type": "date", "attr": "dates + " + label, "lengths": [nd, nn]}, list(r), "an error (operand lengths differ)")
     # date + days
     for size in (1, 3, 1001):
         for nonepos in ((), (0,)):
